@@ -57,10 +57,11 @@ class Bench:
                 alts.extend((b_and(g, g2), x) for g2, x in alts_of(v))
         return Run(alts, assume, I, spec)
 
-    def call(self, name, args, env=None, profile="dev", assume=(), st=None):
+    def call(self, name, args, env=None, profile="dev", assume=(), st=None, no_merge=False):
         """symbolically execute an arbitrary crate function -> Run"""
         E = self.engine(profile)
         I = E.fresh()
+        I.no_merge = no_merge
         I.assumptions = list(assume)
         f, b = E._resolve(name, env or {})
         try:
